@@ -94,6 +94,10 @@ def readout_errors(m, via: str = "") -> list[tuple[str, str]]:
         v = m.is_valid
     except Exception as ex:  # noqa: BLE001
         return [("raises", f"is_valid raised {type(ex).__name__} for {B!r:.100}")]
+    if v is True and d["line_end"] and d["line_end"]["sent"] != d["line_end"]["crc"]:
+        le = d["line_end"]
+        errs.append(("valid_bad_crc", f"reported valid although the end line carries checksum {le['trailer'].decode()} and the CRC16 of '/'..'!' of that line is {le['crc']:04X} "
+                                       f"(an earlier '!' stands inside a data line): {B!r:.100}"))
     if v is True:
         if not d["ident_ok"] and not d["ident_dontcare"]:
             errs.append(("valid_bad_ident", f"reported valid but identification line {d['ident_line']!r} is not well-formed: {B!r:.100}"))
